@@ -122,4 +122,22 @@ def gen_valid_project(rng, cfg=None):
         trees = gen_level(rng, cfg, ns, locales, default, 0, (), fk_pool)
         for l in locales:
             project["data"][(ns, l)] = trees[l]
+    # long values: more than 26 flattened segments exercise the tuple chunking of the view generator
+    for n in (getattr(cfg, "long_keys", None) or []):
+        ns = pick(rng, namespaces or [None])
+        for l in locales:
+            project["data"][(ns, l)].append(["long_%d" % n, long_template(rng, cfg, n, l)])
     return project
+
+
+def long_template(rng, cfg, n, tag):
+    """A template that flattens to exactly n segments (alternating distinct text and variables, a few components)."""
+    segs = []
+    for i in range(n):
+        if i % 2 == 0:
+            segs.append({"s": "text", "v": "%s%d " % (tag, i)})
+        elif i % 11 == 5:
+            segs.append({"s": "comp", "name": pick(rng, cfg.comp_pool[:4]), "inner": [{"s": "text", "v": "c%d" % i}]})
+        else:
+            segs.append({"s": "var", "name": pick(rng, cfg.var_pool[:5]), "fmt": None})
+    return {"k": "tmpl", "segs": segs}
